@@ -122,6 +122,33 @@ class Model:
             return self.ev(r)
         if isinstance(f, Opq) and f.parts[:1] == ("name",) and f.parts[1] in self.funcs:
             return self.funcs[f.parts[1]](*args, **kwargs)
+        if isinstance(f, Opq) and f.parts[:1] == ("name",) and isinstance(f.parts[1], str) and f.parts[1].startswith("genjax.") and self.evaluator is not None:
+            # a module-level repo function that is not modelled: its own definition is evaluated on the model values
+            look = None
+            try:
+                look = self.evaluator.p.lookup(f.parts[1])
+            except Exception:
+                pass
+            if look is not None and look[0] == "func" and len(getattr(self, "_applying", ())) < 6:
+                ph = []
+                for a in args:
+                    self._fresh += 1
+                    t = ("param", f"__arg{self._fresh}")
+                    self.env[t] = a
+                    ph.append(t)
+                kw = []
+                for k, v in kwargs.items():
+                    self._fresh += 1
+                    t = ("param", f"__kw{self._fresh}")
+                    self.env[t] = v
+                    kw.append((k, t))
+                self.memo.clear()
+                self._applying = getattr(self, "_applying", ()) + (f.parts[1],)
+                try:
+                    sm = self.evaluator.eval_funcnode(look[1], look[2], f.parts[1], args=tuple(ph), kwargs=tuple(kw))
+                    return self.ev(sm.ret)
+                finally:
+                    self._applying = self._applying[:-1]
         if isinstance(f, Opq) and f.parts[:1] == ("partial",):
             return self.apply_value(f.parts[1], list(f.parts[2]) + list(args), kwargs)
         return Opq("call", f, tuple(args), tuple(sorted(kwargs.items(), key=lambda kv: kv[0])))
@@ -548,6 +575,15 @@ class Model:
                 args, kwargs = self.args_of(t)
                 if not kwargs:
                     return Opq("partial", args[0], tuple(args[1:]))
+            if nm.startswith("genjax.") and self.evaluator is not None and nm.rsplit(".", 1)[-1].startswith("_"):
+                # an unmodelled private module-level helper: evaluated from its own definition on the model values
+                try:
+                    look = self.evaluator.p.lookup(nm)
+                except Exception:
+                    look = None
+                if look is not None and look[0] == "func":
+                    args, kwargs = self.args_of(t)
+                    return self.apply_value(Opq("name", nm), list(args), kwargs)
         try:
             args, kwargs = self.args_of(t)
         except Unknown:
